@@ -95,6 +95,8 @@ def run_prog(case) -> Outcome:
         if failed_child:
             classes.add("with-failed-child")
         extra = "/with-failed-child" if failed_child else ""
+        if res.get("in_group_exit"):
+            extra += "/in-group-exit"  # the victim was suspended inside asyncio.TaskGroup.__aexit__ at the injection
         disp_err = any(e["ev"] in ("d_exit_raise", "d_enter_raise") for e in run.log)
         if disp_err:
             extra += "/with-disposable-error"
@@ -107,11 +109,9 @@ def run_prog(case) -> Outcome:
         )
         if raised_before:
             # the victim was already unwinding its own exception through scope exits when the cancel arrived
-            ends_it = {tuple(e["path"]): e["it"] for e in run.log if e["ev"] == "task_end"}
-            waiting = any(
-                e["ev"] == "spawn" and e["it"] < k and run.owner_of.get(tuple(e["path"])) is not None and ends_it.get(tuple(e["path"]), 10**9) >= k - 1  # the group's done-callback runs one iteration after the task ends
-                for e in run.log
-            )
+            # was the victim suspended inside asyncio.TaskGroup.__aexit__ (waiting for aborted tasks) when the cancel
+            # arrived? read from the task's await chain at the injection
+            waiting = bool(res.get("in_group_exit"))
             phase = "unwinding-exception/" + ("group-wait" if waiting else "no-group-wait")
         user_cleanup_error = res["outcome"] == "raise" and any(
             e["ev"] in ("d_exit_raise", "d_enter_raise") and e["it"] >= k and _contains(res["exc"], e["exc"]) for e in run.log
